@@ -56,15 +56,6 @@ def Spec.antichains (sp : Spec) (mx : Option Nat) : List Nat → List (List Nat)
     rest ++ (rest.filter (fun a => a.all (fun x => !(sp.le x e || sp.le e x)) &&
       (match mx with | some m => decide (a.length + 1 ≤ m) | none => true))).map (fun a => e :: a)
 
-def combos : Nat → List Nat → List (List Nat)
-  | 0, _ => [[]]
-  | _ + 1, [] => []
-  | k + 1, x :: r => (combos k r).map (x :: ·) ++ combos (k + 1) r
-
-def product : List Nat → List (List Nat)
-  | [] => [[]]
-  | s :: r => (List.range s).flatMap (fun i => (product r).map (i :: ·))
-
 def sortNat (l : List Nat) : List Nat := l.mergeSort (fun a b => decide (a ≤ b))
 def lexLe : List Nat → List Nat → Bool
   | [], _ => true
@@ -89,6 +80,25 @@ def parseUnf (toks : List String) (a : List String) : Option (Spec × List Strin
       | none => none
     | _, _ => none
   | [] => none
+
+/-- the `o<order>` tokens (one per event) that follow the d rows of `subs` / `maxs` answers: iteration order of the
+immediate causes of each event in the implementation's hash sets -/
+def parseOrders (n : Nat) (rest : List String) : Option (List (List Nat) × List String) :=
+  if rest.length < n then none else
+  match (rest.take n).mapM (fun t => dropPrefix 'o' t >>= parseDots) with
+  | some os => some (os, rest.drop n)
+  | none => none
+
+/-- `*unknown_events.begin()`: the first element, in the iteration order of the implementation's set, still present -/
+def pickBy (sorder : List Nat) (l : List Nat) : Option Nat := sorder.find? (fun x => l.elem x)
+/-- the order in which `for_each` visits the remaining causes of `evt` -/
+def orderBy (corders : List (List Nat)) (evt : Nat) (l : List Nat) : List Nat :=
+  ((corders[evt]?).getD []).filter (fun x => l.elem x)
+
+def showTopo : TopoRes → String
+  | .ok l => showDots l
+  | .cycle => "CYCLE"
+  | .fuel => "FUEL"
 
 def splitSemi (q : List String) : List String × List String :=
   (q.takeWhile (· ≠ ";"), (q.dropWhile (· ≠ ";")).drop 1)
@@ -126,7 +136,7 @@ def topoValid (sp : Spec) (s topo : List Nat) : Bool :=
   (List.range topo.length).all (fun i => (List.range topo.length).all (fun j =>
     !(i < j && (topo[i]?).getD 0 != (topo[j]?).getD 0 && sp.le ((topo[j]?).getD 0) ((topo[i]?).getD 0))))
 
-def judgeSubs (sp : Spec) (masks : List Nat) (rest : List String) : Verdict :=
+def judgeSubs (sp : Spec) (corders : List (List Nat)) (masks : List Nat) (rest : List String) : Verdict :=
   let n := sp.n
   let es := sp.es
   if rest.length ≠ masks.length then .bad else
@@ -136,9 +146,17 @@ def judgeSubs (sp : Spec) (masks : List Nat) (rest : List String) : Verdict :=
     let t := maskToList n ((masks[(i + 1) % masks.length]?).getD 0)
     let s := maskToList n m
     let topoTok := (((rest[i]?).getD "").splitOn ":")[5]?.getD "?"
-    let topoOk := match parseDots topoTok with
+    let topoStr := (topoTok.splitOn "/")[0]?.getD "?"
+    let sorderStr := (topoTok.splitOn "/")[1]?.getD "?"
+    let topoOk := match parseDots topoStr with
       | some topo => topoValid sp s topo
       | none => false
+    -- the model replays the search with the implementation's hash orders: the same ordering must come out
+    let topoField :=
+      if specSide then (if topoOk then topoTok else "INVALID-ORDER")
+      else match parseDots sorderStr with
+        | some sorder => showTopo (getTopologicalOrdering true (pickBy sorder) (orderBy corders) es s) ++ "/" ++ sorderStr
+        | none => "BAD-ORDER-TOKEN"
     let closure := if specSide then sp.closure s else getAllEvents pickHead es s
     let maxi := if specSide then sp.maximal s else getAllMaximalEvents pickHead es s
     let isMax := if specSide then sortNat (sp.maximal s) == sortNat s else isMaximal pickHead es s
@@ -160,7 +178,7 @@ def judgeSubs (sp : Spec) (masks : List Nat) (rest : List String) : Verdict :=
       else
         s!"{listToMask (EventSet.union s t)}.{listToMask (EventSet.subtract s t)}.{listToMask (EventSet.inter s t)}.{if EventSet.isSubsetOf s t then 1 else 0}.{if EventSet.intersects s t then 1 else 0}"
     let b := fun (x : Bool) => if x then "1" else "0"
-    s!"S{m}:{listToMask closure}:{listToMask maxi}:{b isMax}{b cf}{b valid}:{listToMask cwa}:{if topoOk then topoTok else "INVALID-ORDER"}:{addS}:{compat}:{alg}")
+    s!"S{m}:{listToMask closure}:{listToMask maxi}:{b isMax}{b cf}{b valid}:{listToMask cwa}:{topoField}:{addS}:{compat}:{alg}")
   let specAns := check true
   if specAns ≠ rest then
     let bad := (specAns.zip rest).filter (fun (a, b) => a ≠ b)
@@ -177,25 +195,35 @@ def judge (q0 a : List String) : Verdict :=
   | "subs" :: r =>
     let (toks, ms) := splitSemi r
     match parseUnf toks a, ms.mapM String.toNat? with
-    | some (sp, rest), some masks => judgeSubs sp masks rest
+    | some (sp, rest0), some masks =>
+      match parseOrders sp.n rest0 with
+      | some (corders, rest) => judgeSubs sp corders masks rest
+      | none => .bad
     | _, _ => .bad
   | "maxs" :: r =>
     let (toks, ms) := splitSemi r
     match parseUnf toks a, ms with
-    | some (sp, rest), [mTok, mxTok] =>
-      match mTok.toNat?, rest.mapM String.toNat? with
-      | some m, some impl =>
-        let mx := mxTok.toNat?
-        let s := maskToList sp.n m
-        let specL := sortNat ((sp.antichains mx s).map listToMask)
-        -- monitor: every qualifying set exactly once
-        if sortNat impl ≠ specL then
-          .monfail s!"maximal_subsets_iterator does not yield every set of pairwise unrelated events exactly once: spec={specL}"
-        else
-          let ord := (sortNat s).reverse     -- a topological ordering of the reverse graph: ids decrease along causes
-          let model := (maximalSubsets pickHead sp.es ord mx (2 ^ s.length + 2)).map listToMask
-          if sortNat model = sortNat impl then .ok else .disagree s!"{sortNat model}"
-      | _, _ => .bad
+    | some (sp, rest0), [mTok, mxTok] =>
+      match parseOrders sp.n rest0 with
+      | some (corders, qTok :: rest) =>
+        match mTok.toNat?, rest.mapM String.toNat?, dropPrefix 'q' qTok >>= parseDots with
+        | some m, some impl, some sorder =>
+          let mx := mxTok.toNat?
+          let s := maskToList sp.n m
+          let specL := sortNat ((sp.antichains mx s).map listToMask)
+          -- monitor: every qualifying set exactly once
+          if sortNat impl ≠ specL then
+            .monfail s!"maximal_subsets_iterator does not yield every set of pairwise unrelated events exactly once: spec={specL}"
+          else
+            -- the model: the constructor's ordering, replayed with the implementation's hash orders, then the stack machine;
+            -- the SEQUENCE of yielded sets must be the same
+            match getTopologicalOrderingOfReverseGraph true (pickBy sorder) (orderBy corders) sp.es s with
+            | .ok ord =>
+              let model := (maximalSubsets pickHead sp.es ord mx (2 ^ s.length + 2)).map listToMask
+              if model = impl then .ok else .disagree s!"{model} (ordering {ord})"
+            | r => .disagree s!"ordering: {showTopo r}"
+        | _, _, _ => .bad
+      | _ => .bad
     | _, _ => .bad
   | ["ksub", k, n] =>
     match k.toNat?, n.toNat?, a.mapM parseDots with
